@@ -267,7 +267,6 @@ theorem gsp_le {m₁ m₂ : Srcmap} (h : MLe m₁ m₂) {pos x₁ : Nat} (h₁ :
       split at h₁
       · simp at h₁
       · next hk =>
-        simp only [Except.ok.injEq] at h₁
         have hlen : line < m₂.length := by
           have h1 : line < m₁.length := by
             rcases Nat.lt_or_ge line m₁.length with h | h
@@ -289,7 +288,31 @@ theorem gsp_le {m₁ m₂ : Srcmap} (h : MLe m₁ m₂) {pos x₁ : Nat} (h₁ :
           have := h.2 _ _ _ _ _ hkv hm2
           simp only []
           rw [if_neg hk]
-          exact ⟨_, rfl, by omega⟩
+          have hlen' := congrArg List.length h.1
+          simp only [List.length_map] at hlen'
+          cases hn1 : m₁[line + 1]? with
+          | none =>
+            rw [hn1] at h₁
+            simp only [Except.ok.injEq] at h₁
+            have : m₂[line + 1]? = none := by
+              rw [List.getElem?_eq_none_iff] at hn1 ⊢; omega
+            rw [this]
+            exact ⟨_, rfl, by omega⟩
+          | some kv1 =>
+            obtain ⟨k1', v1'⟩ := kv1
+            rw [hn1] at h₁
+            simp only [Except.ok.injEq] at h₁
+            cases hn2 : m₂[line + 1]? with
+            | none =>
+              have h1 : line + 1 < m₁.length := by
+                rcases Nat.lt_or_ge (line + 1) m₁.length with h | h
+                · exact h
+                · rw [List.getElem?_eq_none h] at hn1; cases hn1
+              rw [List.getElem?_eq_none_iff] at hn2; omega
+            | some kv2 =>
+              obtain ⟨k2', v2'⟩ := kv2
+              have := h.2 _ _ _ _ _ hn1 hn2
+              exact ⟨_, rfl, by omega⟩
 
 theorem gsp_sim {s : Bool} {m₁ m₂ : Srcmap} (hm : MRel s m₁ m₂) {pos x₁ : Nat}
     (h₁ : getSourcePosFor m₁ pos = .ok x₁) :
